@@ -312,7 +312,8 @@ OPEN_WT = Assumed("open(name, 'wt')", params=["file", "mode", "encoding"], retur
                   effects=["g_files.add_if(mode == 'wt', file)"], pure=True,
                   why="open(): in mode 'wt' creates / truncates the file; in read modes creates nothing; returns a handle")
 
-register(Assumed(FSH + "__process_file_fix_tokens", returns="Tuple[str, List[MarkdownToken], bool, Set[str]]",
+# (not registered: used as the call-site contract of __process_file_fix_pass; the function itself is under contract below)
+FIX_TOKENS_ASSUMED = Assumed(FSH + "__process_file_fix_tokens", returns="Tuple[str, List[MarkdownToken], bool, Set[str]]",
                  raises=FIX_RAISES, modifies=["*", "number_of_scan_failures", "g_files.$dict"],
                  ensures=[MONO,
                           # either nothing was changed at token level and the original path is handed back, or the regenerated document
@@ -325,7 +326,9 @@ register(Assumed(FSH + "__process_file_fix_tokens", returns="Tuple[str, List[Mar
                  ghost={"g_files": "Set[str]"},
                  why="token pass of fix mode (parser + rules + regenerator): out of reach (C08 covers its vocabulary).  Temp-file behaviour as "
                      "read from the code: the only file it creates is the one it returns; on failure before that point nothing is created "
-                     "(NOT proved: __process_file_fix_tokens_apply_fixes writes the file last)"))
+                     "(NOT proved: __process_file_fix_tokens_apply_fixes writes the file last)")
+import dataclasses as _dc
+FIX_TOKENS_TRACED = _dc.replace(FIX_TOKENS_ASSUMED, effects=list(FIX_TOKENS_ASSUMED.effects) + ["g_tokfix = result[2]", "g_two = result[0]"])
 register(Assumed(FSH + "__process_file_fix_rescan", returns="List[MarkdownToken]", fresh_result=True,
                  raises=[Raises("BadTokenizationError"), Raises("OSError"), Raises("UnicodeError")], modifies=["*"],
                  why="re-parse of the token-fixed temporary file (parser: opaque)"))
@@ -348,7 +351,7 @@ register(Contract(
     key=FSH + "__process_file_fix_pass", properties=["C10", "C15", "C09", "C08"],
     ghost=dict(FIXG, g_tokfix="bool", g_nrec="int", g_two="str"),
     calls={"self.__get_temporary_file_name": TMPNAME,
-           "self.__process_file_fix_tokens": (FSH + "__process_file_fix_tokens", ["g_tokfix = result[2]", "g_two = result[0]"]),
+           "self.__process_file_fix_tokens": FIX_TOKENS_TRACED,
            "self.__process_file_fix_lines": (FSH + "__process_file_fix_lines", ["g_nrec = len(result[0])"]),
            "self.__process_file_fix_rescan": FSH + "__process_file_fix_rescan"},
     requires=["next_file not in g_files", "user_file(next_file)"],
@@ -425,4 +428,67 @@ register(Contract(
                               "(next_file in g_written) == (old(next_file in g_written) or did_anything_get_fixed)",
                               "forall_val(lambda x: implies(x != next_file, (x in g_written) == old(x in g_written)))", MONO,
                               "self.__plugins is old(self.__plugins)"])},
+))
+
+# ------------------------------------------------------------------------------------------------ fix mode: token pass (C14 / C09)
+# The token pass of a fix level honours the same life-cycle as a scan: both contexts are started (the fixing one for the rules of this
+# level, the reporting one for the rules of higher levels), EVERY token of the document is then delivered exactly once, in order,
+# through the dispatcher with the map rule id -> context, then completed_file once; the queued fixes are applied only afterwards,
+# and only if there are any.  Ghost `calls` records the engine-level events.
+from pyvc.spec import PROTECTED_FIELDS as _PFS
+_PFS["_PluginScanContext__in_fix_mode"] = "stored only by PluginScanContext.__init__ (structural obligation protected_context_mode)"
+SNF_T = Assumed(PM + "starting_new_file[token pass]", params=["file_being_started", "fix_mode", "temp_output", "fix_token_map", "constraint_id_list", "replace_tokens_list"],
+                returns="PluginScanContext", fresh_result=True, raises=[Raises("BadPluginError")], modifies=["*"],
+                ensures=["result.in_fix_mode == (fix_mode is not None and fix_mode)"],
+                effects=["calls.append(('start', result, constraint_id_list))"],
+                why="PluginManager.starting_new_file (own contract, C13/C14): a fresh context; fix_mode as given")
+NT_T = Assumed(PM + "next_token[token pass]", params=["context", "token", "context_map"], raises=[Raises("BadPluginError")], modifies=["*"],
+               effects=["calls.append(('tok', context, token, context_map))"], why="PluginManager.next_token (own contract, C07/C14)")
+CF_T = Assumed(PM + "completed_file[token pass]", params=["context", "line_number", "context_map"], raises=[Raises("BadPluginError"), Raises("OSError"), Raises("AssertionError")],
+               modifies=["*"], effects=["calls.append(('done', context, line_number, context_map))"], why="PluginManager.completed_file (own contract)")
+APPLY_T = Assumed(FSH + "__process_file_fix_tokens_apply_fixes", returns="Tuple[str, List[MarkdownToken], bool]", fresh_result=True, modifies=["*"],
+                  raises=[Raises("BadPluginFixError"), Raises("OSError"), Raises("ValueError"), Raises("IndexError"), Raises("KeyError"), Raises("AssertionError")],
+                  effects=["calls.append(('apply', context, actual_tokens))"],
+                  why="applies the queued token fixes (contracts in contracts/fixes.py), regenerates the Markdown and writes it to a new temporary file")
+FSP_T = Assumed("FileSourceProvider[construct]", returns="FileSourceProvider", fresh_result=True, pure=True, raises=[Raises("OSError"), Raises("UnicodeError")],
+                why="FileSourceProvider.__init__ (own contract, C14)")
+TRANSFORM_T = Assumed(TM + "transform_from_provider[token pass]", params=["source_provider", "do_add_end_of_stream_token"], returns="List[MarkdownToken]", fresh_result=True,
+                      raises=[Raises("BadTokenizationError")], modifies=["*"], effects=["g_toks = result", "g_ntok = len(result)"],
+                      why="the parser: the token stream of the document (opaque)")
+DBG_T = Assumed(FSH + "__print_file_in_debug_mode", pure=True, why="debug dump (only under -x-fix-debug)")
+GETMAP = Assumed("PluginScanContext.get_fix_token_map", returns="Dict[MarkdownToken, List[FixTokenRecord]]", pure=True, why="getter")
+GETREP = Assumed("PluginScanContext.get_replace_tokens_list", returns="List[ReplaceTokensRecord]", pure=True, why="getter")
+GETTRIG = Assumed("PluginScanContext.get_triggered_rules", returns="Set[str]", fresh_result=True, pure=True, why="ids of the rules that reported into this context")
+B0 = "old(len(calls))"
+register(Contract(
+    key=FSH + "__process_file_fix_tokens", properties=["C14", "C09"],
+    ghost={"calls": "List[Any]", "g_toks": "List[Any]", "g_ntok": "int"},
+    calls={"FileSourceProvider": FSP_T, "self.__tokenizer.transform_from_provider": TRANSFORM_T, "self.__plugins.starting_new_file": SNF_T,
+           "self.__plugins.next_token": NT_T, "self.__plugins.completed_file": CF_T, "self.__process_file_fix_tokens_apply_fixes": APPLY_T,
+           "self.__print_file_in_debug_mode": DBG_T, "fix_context.get_fix_token_map": GETMAP, "fix_context.get_replace_tokens_list": GETREP,
+           "report_context.get_triggered_rules": GETTRIG},
+    requires=["g_ntok == 0"],
+    ensures=[
+        f"len(calls) == {B0} + 2 + g_ntok + 1 or len(calls) == {B0} + 2 + g_ntok + 2",
+        # two contexts: the fixing one limited to the rules of this level, the reporting one to the rules of the higher levels
+        f"calls[{B0}][0] == 'start' and calls[{B0}][2] is fix_list and calls[{B0}][1]._PluginScanContext__in_fix_mode",
+        f"calls[{B0} + 1][0] == 'start' and calls[{B0} + 1][2] is collect_list and not calls[{B0} + 1][1]._PluginScanContext__in_fix_mode",
+        # every token, once, in order, to the fixing context together with the rule -> context map
+        f"forall(lambda k: calls[{B0} + 2 + k][0] == 'tok' and calls[{B0} + 2 + k][1] is calls[{B0}][1], 0, g_ntok)",
+        f"calls[{B0} + 2 + g_ntok][0] == 'done' and calls[{B0} + 2 + g_ntok][1] is calls[{B0}][1] and calls[{B0} + 2 + g_ntok][2] == -1",
+        # fixes are applied after the whole stream was seen
+        f"implies(len(calls) == {B0} + 2 + g_ntok + 2, calls[{B0} + 2 + g_ntok + 1][0] == 'apply' and calls[{B0} + 2 + g_ntok + 1][1] is calls[{B0}][1])",
+        f"forall(lambda j: calls[j] == old(calls[j]), 0, {B0})",
+    ],
+    raises=FIX_RAISES + [Raises("ValueError"), Raises("IndexError"), Raises("KeyError")],
+    modifies=["*", "calls.$list", "g_toks", "g_ntok"],
+    loops={0: Loop(index="idx", invariant=[f"len(calls) == {B0} + 2", f"forall(lambda j: calls[j] == old(calls[j]), 0, {B0})",
+                                           f"calls[{B0}][0] == 'start' and calls[{B0}][2] is fix_list and calls[{B0}][1] is fix_context and fix_context.in_fix_mode",
+                                           f"calls[{B0} + 1][0] == 'start' and calls[{B0} + 1][2] is collect_list and calls[{B0} + 1][1] is report_context and not report_context.in_fix_mode",
+                                           "g_ntok == len(actual_tokens)"]),
+           1: Loop(index="idx", frozen_iter="the token list handed to the rules is not changed while it is walked (rules only see tokens, never the list)",
+                   invariant=[f"len(calls) == {B0} + 2 + idx", f"forall(lambda j: calls[j] == old(calls[j]), 0, {B0})",
+                              f"calls[{B0}][0] == 'start'", f"calls[{B0}][2] is fix_list", f"calls[{B0}][1] is fix_context", "fix_context.in_fix_mode",
+                              f"calls[{B0} + 1][0] == 'start'", f"calls[{B0} + 1][2] is collect_list", f"calls[{B0} + 1][1] is report_context", "not report_context.in_fix_mode",
+                              f"forall(lambda k: calls[{B0} + 2 + k][0] == 'tok' and calls[{B0} + 2 + k][1] is fix_context, 0, idx)"])},
 ))
